@@ -648,6 +648,69 @@ func C18(r *vf.Run) {
 			r.CellN("callbacks-in-progress-at-once", int64(atomic.LoadInt32(&arrived)))
 		}
 	}
+	// arithmetic in steady state: every goroutine's own CPU runs a long decimal counting loop (SED, then
+	// ADC/SBC with a handful of operands it keeps returning to), all at the same time. No callback, no
+	// allocation, nothing but the ALU: what one CPU computes may not depend on what the others compute.
+	{
+		G := 16
+		steps := r.N(120000, 1200000)
+		type decActor struct {
+			c   cpu65c816.CPU
+			bus *bus.Bus
+			fm  *fastMem
+		}
+		acts := make([]*decActor, G)
+		for i := range acts {
+			a := &decActor{fm: &fastMem{data: make([]byte, 1<<16), limit: 1 << 62}}
+			b, _ := bus.New()
+			if err := b.Attach(a.fm, "ram", 0, 0xFFFF); err != nil {
+				panic(err)
+			}
+			a.bus = b
+			acts[i] = a
+		}
+		seedD := r.Rand("decimal").U64()
+		runDec := func(i int) uint64 {
+			a := acts[i]
+			g := vf.NewRng(seedD ^ uint64(i+1)*0x9E3779B97F4A7C15)
+			// program at $00:8000: SED ; loop: ADC #a ; SBC #b ; ADC #c ; ADC #d ; BRA loop  (8-bit)
+			ops := []byte{0x05, 0x15, 0x25, 0x26, 0x27, 0x75, 0x21, 0x24, byte(g.Intn(10)) | byte(g.Intn(10))<<4, byte(g.Intn(10)) | byte(g.Intn(10))<<4}
+			prog := []byte{0xF8}
+			for k := 0; k < 4; k++ {
+				op := byte(0x69)
+				if k == 1 {
+					op = 0xE9
+				}
+				prog = append(prog, op, ops[(i+k*3)%len(ops)])
+			}
+			prog = append(prog, 0x80, byte(0x100-len(prog)-1))
+			copy(a.fm.data[0x8000:], prog)
+			a.c.Init(a.bus)
+			a.c.RK, a.c.PC, a.c.SP = 0, 0x8000, 0x01FF
+			a.c.E, a.c.M, a.c.X = 0, 1, 1
+			a.c.RA, a.c.RAl, a.c.RAh = 0, byte(i), 0
+			d := uint64(1469598103934665603)
+			for s := 0; s < steps; s++ {
+				a.c.Step()
+				d = d*1099511628211 ^ uint64(a.c.RAl) ^ uint64(a.c.C)<<8
+			}
+			return mixU64(d, a.c.AllCycles)
+		}
+		solo := make([]uint64, G)
+		for i := range solo {
+			solo[i] = runDec(i)
+		}
+		conc := make([]uint64, G)
+		vf.Parallel(G, G, func(w, i int) { conc[i] = runDec(i) })
+		for i := range conc {
+			if conc[i] != solo[i] {
+				r.Fail("result-differs-from-solo", fmt.Sprintf("CPU %d of %d, each running its own decimal counting loop at the same time: digest of the accumulator sequence %016x, %016x alone", i, G, conc[i], solo[i]), nil)
+				break
+			}
+		}
+		r.Eval(int64(2 * G * steps))
+		r.CellN("decimal-loops-in-parallel", int64(G))
+	}
 	// common ancestry: emitters that were separately created but received the same fragment (Append) or
 	// were cloned from the same parent, before the goroutines started; afterwards each is driven only by
 	// its own goroutine
